@@ -59,6 +59,20 @@ def parseTM (sep : Char) (j : Json) : E TM := do
 def parseEsh (s : String) : SlashHandling :=
   if s == "on" then .on else if s == "no_decode" then .noDecode else .off
 
+/-- `forward_to` of a rule: host and the optional `rewrite` -/
+def parseBackend (j : Json) : Option BackendCfg :=
+  match j.getObjVal? "forward_to" with
+  | .ok fw@(.obj _) =>
+    let rw : Option RewriteCfg := match fw.getObjVal? "rewrite" with
+      | .ok r@(.obj _) =>
+        some { scheme := bytesOf (strD r "scheme" ""),
+               strip := bytesOf (strD r "strip" ""),
+               add := bytesOf (strD r "add" ""),
+               stripQ := ((strs r "strip_query").toOption.getD []).map bytesOf }
+      | _ => none
+    some { host := bytesOf (strD fw "host" ""), rewrite := rw }
+  | _ => none
+
 def parseRule (drBt : Bool) (j : Json) : E (Option RuleCfg) := do
   let esh := parseEsh (strD j "esh" "")
   let bt := match j.getObjVal? "bt" with
@@ -71,14 +85,18 @@ def parseRule (drBt : Bool) (j : Json) : E (Option RuleCfg) := do
     let routes ← (← arr j "routes").mapM fun r => do
       let pps ← (arrD r "pp").mapM fun p => do pure (bytesOf (← str p "name"), ← parseTM '/' p)
       pure (bytesOf (← str r "path"), ({ scheme := strD j "scheme" "", methods, hosts, pps, esh } : RouteM))
-    pure (some { id := ← str j "id", bt, esh, routes, ver := natD j "ver" 0 })
+    pure (some { id := ← str j "id", bt, esh, routes, ver := natD j "ver" 0, backend := parseBackend j })
 
 def splitTarget (t : String) : String × String :=
   let cs := t.toList
   (String.ofList (cs.takeWhile (· ≠ '?')), String.ofList ((cs.dropWhile (· ≠ '?')).drop 1))
 
+def upJson (u : UpUrl) : Json :=
+  Json.mkObj [("scheme", jstr (outStr u.scheme)), ("host", jstr (outStr u.host)), ("path", jstr (outStr u.path)),
+    ("query", jstr (outStr u.query))]
+
 /-- answer to one lookup; second component: 0 = no rule, 1 = default rule, 2 = regular rule -/
-def answer (s : Repo) (hasDr : Bool) (q : ReqView) : Json × Nat :=
+def answer (s : Repo) (hasDr : Bool) (q : ReqView) (rawQuery : String) : Json × Nat :=
   let sv := s.serve hasDr q
   match sv.rule, sv.exec with
   | some (src, rid), some ex =>
@@ -92,19 +110,26 @@ def answer (s : Repo) (hasDr : Bool) (q : ReqView) : Json × Nat :=
       let caps' := sortPairs (caps.map fun kv => (outStr kv.1, outStr kv.2))
       (Json.mkObj ([("rule", jstr (src ++ "/" ++ rid)), ("exec", jstr "ok"),
         ("caps", jarr (caps'.map fun kv => jstrs [kv.1, kv.2]))]
-        ++ (if ver > 0 then [("ver", jstr (toString ver))] else [])), kind)
+        ++ (if ver > 0 then [("ver", jstr (toString ver))] else [])
+        ++ (match s.upstream hasDr q rawQuery with
+            | some u => [("up", upJson u)]
+            | none => [])), kind)
   | _, _ => (Json.mkObj [("rule", Json.null), ("err", jstr "norule")], 0)
 
-/-- the request view of a lookup operation (`none`: the request line is not accepted) -/
-def viewOf (op : Json) : E (Option ReqView) := do
-  let (received, _) := splitTarget (bytesOf (← str op "target"))
-  -- the request context spells the received path with the octets a path may not contain percent-encoded
-  let rawPath := receivedPath received
-  match (pathUnescape received).bind fun _ => pathUnescape rawPath with
-  | none => pure none
-  | some path =>
-    pure (some { method := ← str op "method", scheme := strD op "scheme" "http", host := bytesOf (← str op "host"),
-                 rawPath, path })
+/-- the request views of a lookup operation: through the request context of the HTTP based services (`none`: the
+request line is not accepted) and through the one of the Envoy ext_authz service; and the raw query -/
+def viewsOf (op : Json) : E (Option ReqView × ReqView × String) := do
+  let (received, query) := splitTarget (bytesOf (← str op "target"))
+  let method ← str op "method"
+  let scheme := strD op "scheme" "http"
+  let scheme := if scheme.isEmpty then "http" else scheme
+  let host := bytesOf (← str op "host")
+  let ev := envoyViewPath received
+  pure ((httpViewPath received).map fun v => { method, scheme, host, rawPath := v.1, path := v.2 },
+        { method, scheme, host, rawPath := ev.1, path := ev.2 }, query)
+
+/-- the answer through the second request context is reported for cases asking for it (`"envoy": true`) -/
+def withEnvoy (both : Bool) (j e : Json) : Json := if both then j.setObjVal! "envoy" e else j
 
 def changeOf (drBt : Bool) (k : String) (op : Json) : E (Option RepoOp) := do
   let src ← str op "src"
@@ -117,22 +142,27 @@ def changeOf (drBt : Bool) (k : String) (op : Json) : E (Option RepoOp) := do
 def run (c : Json) : E Json := do
   let hasDr := boolD c "dr" false
   let drBt := hasDr && boolD c "dr_bt" false
+  let both := boolD c "envoy" false
   let mut s := Repo.empty
   let mut out : List Json := []
   let mut multi := 0
   let mut matched := 0
   let mut dflt := 0
+  let mut fwd := 0
   for op in ← arr c "ops" do
     let k ← str op "op"
     if k == "find" then
-      match ← viewOf op with
-      | none => out := out ++ [Json.mkObj [("badrequest", Json.bool true)]]
+      let (hq, eq, query) ← viewsOf op
+      let (je, _) := answer s hasDr eq query
+      match hq with
+      | none => out := out ++ [withEnvoy both (Json.mkObj [("badrequest", Json.bool true)]) je]
       | some q =>
         if (cands s.index (tokenize (lookupPath q)) []).length ≥ 2 then multi := multi + 1
-        let (j, kind) := answer s hasDr q
+        let (j, kind) := answer s hasDr q query
         if kind == 1 then dflt := dflt + 1
         if kind == 2 then matched := matched + 1
-        out := out ++ [j]
+        if (s.upstream hasDr q query).isSome then fwd := fwd + 1
+        out := out ++ [withEnvoy both j je]
     else
       match ← changeOf drBt k op with
       | none => out := out ++ [jstr "configuration"]
@@ -140,6 +170,6 @@ def run (c : Json) : E Json := do
         out := out ++ [jstr (if (s.apply o).isSome then "ok" else "internal")]
         s := s.step o
   return Json.mkObj [("res", jarr out), ("stats", Json.mkObj [("multi", jnat multi), ("matched", jnat matched),
-    ("default", jnat dflt)])]
+    ("default", jnat dflt), ("forwarded", jnat fwd)])]
 
 end Driver.Repo
